@@ -1884,6 +1884,19 @@ Plan gen_C10(std::uint64_t seed, int tier) {
             for (int di : g.defs(0, mi, g.r.range(0, 5), o.focus))
                 later.push_back(di);
         }
+        // ... and brings further definitions of methods the first update
+        // already saw (seeded change C10-m: ids of a definition that arrives
+        // after its method's first update)
+        for (int ri : std::vector<int>(base)) {
+            if (g.p.recs[ri].kind != RK_METHOD || !g.r.chance(0.6))
+                continue;
+            int have = 0;
+            for (int rj : base)
+                if (g.p.recs[rj].kind == RK_DEF && g.p.recs[rj].meth == ri)
+                    ++have;
+            for (int di : g.defs(0, ri, g.r.range(1, 3), o.focus, have))
+                later.push_back(di);
+        }
     }
     std::vector<std::vector<int>> per_pol(np), later_pol(np);
     per_pol[0] = base;
@@ -2030,6 +2043,17 @@ Plan gen_C16(std::uint64_t seed, int tier) {
     bool static_offsets = g.r.chance(0.12);
     if (static_offsets)
         pool[0] = "sofd";
+    else if (g.r.chance(0.15)) {
+        // callers on a policy, update of the one it was rebound / derived
+        // from (or the other way round): whatever the two still share is
+        // written by update while the callers read it (seeded change C16-m)
+        static const char* const fam[][2] = {
+            {"mapx", "mapy"}, {"rel", "relx"}, {"ind", "vecx"}};
+        auto& f = fam[g.r.below(3)];
+        bool swap = g.r.chance(0.5);
+        pool[0] = f[swap ? 1 : 0];
+        pool[1] = f[swap ? 0 : 1];
+    }
     g.p.pols = pool;
     bool small = small_ids_policy(pool[0]) || small_ids_policy(pool[1]);
     BasicOpts o;
